@@ -36,7 +36,7 @@ class VisitSem(Semantics):
         return s
 
 
-def run(ctx):
+def _run_structural(ctx):
     idx = ctx.index
     res = ctx.resolver
     tw = idx.func("gwf.plugins.touch:touch_workflow")
@@ -187,3 +187,23 @@ def run(ctx):
     r4.check(ok, vcon + "::parent-dir", "the parent directory is created (parents=True, exist_ok=True) before the touch",
              "an output is touched without creating its parent directory first: `gwf touch` fails half-way with FileNotFoundError for results/x.txt in a fresh checkout",
              visit.where, fmt_trace(nomk[0][1], visit.module) if nomk else None)
+
+
+def run(ctx):
+    """Structural rules first; the command evaluated on the witness project decides where they do not recognise the shape."""
+    from ..loader import AnalysisError
+    from .evalhelpers import cached_witness, touch_command_witness
+    w = cached_witness(ctx, "touch_command_witness", touch_command_witness)
+    n0 = len(ctx.rules)
+    try:
+        _run_structural(ctx)
+    except (AnalysisError, Exception) as exc:
+        if w[2] is not None and not w[1]:
+            raise
+        r0 = ctx.rule("R0", "the structural rules cannot follow this shape of the command; decided by its evaluation on the witness project")
+        r0.info("src/gwf/plugins/touch.py::touch", f"structural analysis stopped: {type(exc).__name__}: {str(exc)[:120]}")
+        for d in w[1][:3]:
+            r0.violation(r0.id + "::witness", d, "")
+        for r in ctx.rules[n0:]:
+            r.min_instances = 0
+    ctx.reconcile(ctx.rules[n0:], lambda c: "plugins/touch.py" in c and "memo" not in c and "cache" not in c, (w[0], [], w[2]) if True else w, "src/gwf/plugins/touch.py::touch", "src/gwf/plugins/touch.py:1")
